@@ -11,6 +11,7 @@ import (
 
 	"fmt"
 	"math/big"
+	"strings"
 	"pgregory.net/rapid"
 	"testing"
 	"time"
@@ -30,16 +31,50 @@ import (
 
 type c11Stake struct {
 	total map[string]*big.Int // account -> delegated + unbonding value (loya, truncated per entry)
+	pair  map[string]*big.Int // account|validator -> delegated + unbonding value at that validator
+	redel map[string][]string // account|source validator -> destination validators of live redelegations
+}
+
+// reachable is an upper bound of what is left of the tokens that backed a report: the backer's delegation and
+// unbonding entries at the validators the report records, plus its delegations at the destinations of live
+// redelegations away from them ("following tokens that were since redelegated or are unbonding"). Tokens the
+// backer delegated elsewhere later are not part of the stake that backed the report.
+func (s c11Stake) reachable(acc string, vals map[string]bool) *big.Int {
+	seen := map[string]bool{}
+	sum := new(big.Int)
+	addVal := func(v string) {
+		if seen[v] {
+			return
+		}
+		seen[v] = true
+		if x := s.pair[acc+"|"+v]; x != nil {
+			sum.Add(sum, x)
+		}
+	}
+	for v := range vals {
+		addVal(v)
+		for _, dst := range s.redel[acc+"|"+v] {
+			addVal(dst)
+		}
+	}
+	return sum
 }
 
 func c11ReadStake(c *Chain) c11Stake {
 	ctx := c.Ctx()
-	s := c11Stake{total: map[string]*big.Int{}}
+	s := c11Stake{total: map[string]*big.Int{}, pair: map[string]*big.Int{}, redel: map[string][]string{}}
 	add := func(acc string, x *big.Int) {
 		if s.total[acc] == nil {
 			s.total[acc] = new(big.Int)
 		}
 		s.total[acc].Add(s.total[acc], x)
+	}
+	addPair := func(acc, val string, x *big.Int) {
+		k := acc + "|" + val
+		if s.pair[k] == nil {
+			s.pair[k] = new(big.Int)
+		}
+		s.pair[k].Add(s.pair[k], x)
 	}
 	vals := map[string]stakingtypes.Validator{}
 	all, _ := c.App.StakingKeeper.GetAllValidators(ctx)
@@ -50,11 +85,22 @@ func c11ReadStake(c *Chain) c11Stake {
 	for _, d := range dels {
 		if v, ok := vals[d.ValidatorAddress]; ok {
 			add(d.DelegatorAddress, v.TokensFromShares(d.Shares).TruncateInt().BigInt())
+			addPair(d.DelegatorAddress, d.ValidatorAddress, v.TokensFromShares(d.Shares).TruncateInt().BigInt())
+		}
+	}
+	for _, v := range all {
+		if va, err := sdk.ValAddressFromBech32(v.OperatorAddress); err == nil {
+			if reds, err := c.App.StakingKeeper.GetRedelegationsFromSrcValidator(ctx, va); err == nil {
+				for _, r := range reds {
+					s.redel[r.DelegatorAddress+"|"+r.ValidatorSrcAddress] = append(s.redel[r.DelegatorAddress+"|"+r.ValidatorSrcAddress], r.ValidatorDstAddress)
+				}
+			}
 		}
 	}
 	_ = c.App.StakingKeeper.IterateUnbondingDelegations(ctx, func(_ int64, ubd stakingtypes.UnbondingDelegation) bool {
 		for _, e := range ubd.Entries {
 			add(ubd.DelegatorAddress, e.Balance.BigInt())
+			addPair(ubd.DelegatorAddress, ubd.ValidatorAddress, e.Balance.BigInt())
 		}
 		return false
 	})
@@ -287,12 +333,15 @@ func (m *slashMonitor) After(c *Chain, w *World, br *BlockResult, outs []TxOutco
 		}
 		// per-backer losses: only attributable when nothing else moved stake in this block
 		backers := map[string]*big.Int{}
+		backerVals := map[string]map[string]bool{}
 		originSum := new(big.Int)
 		for _, o := range rec.TokenOrigins {
 			a := sdk.AccAddress(o.DelegatorAddress).String()
 			if backers[a] == nil {
 				backers[a] = new(big.Int)
+				backerVals[a] = map[string]bool{}
 			}
+			backerVals[a][sdk.ValAddress(o.ValidatorAddress).String()] = true
 			backers[a].Add(backers[a], o.Amount.BigInt())
 			originSum.Add(originSum, o.Amount.BigInt())
 		}
@@ -316,10 +365,7 @@ func (m *slashMonitor) After(c *Chain, w *World, br *BlockResult, outs []TxOutco
 		// then only the consistency of the record with what was taken is checked below (finding F-C11-5)
 		exhausted := false
 		for a, contrib := range backers {
-			b0 := m.before.total[a]
-			if b0 == nil {
-				b0 = new(big.Int)
-			}
+			b0 := m.before.reachable(a, backerVals[a])
 			if new(big.Int).Mul(b0, originSum).Cmp(new(big.Int).Mul(X, contrib)) < 0 {
 				exhausted = true
 			}
@@ -369,6 +415,23 @@ func (m *slashMonitor) After(c *Chain, w *World, br *BlockResult, outs []TxOutco
 			detail := ""
 			for a := range backers {
 				detail += fmt.Sprintf(" %s: %v -> %v;", a[:12], m.before.total[a], after.total[a])
+			}
+			for a := range backers {
+				for k, x := range m.before.pair {
+					if strings.HasPrefix(k, a+"|") {
+						va, _ := sdk.ValAddressFromBech32(k[len(a)+1:])
+						detail += fmt.Sprintf(" held-before[%s,%x]=%s", a[:12], []byte(va)[:3], x)
+					}
+				}
+				for k, dsts := range m.before.redel {
+					if strings.HasPrefix(k, a+"|") {
+						va, _ := sdk.ValAddressFromBech32(k[len(a)+1:])
+						for _, d := range dsts {
+							vd, _ := sdk.ValAddressFromBech32(d)
+							detail += fmt.Sprintf(" redelegation[%s,%x->%x]", a[:12], []byte(va)[:3], []byte(vd)[:3])
+						}
+					}
+				}
 			}
 			for _, o := range esc.TokenOrigins {
 				detail += fmt.Sprintf(" escrow[%s,%x]=%s", sdk.AccAddress(o.DelegatorAddress).String()[:12], o.ValidatorAddress[:3], o.Amount)
